@@ -1,1 +1,91 @@
-// hex-string decoding is excluded (DESIGN.md: parse_sas_hex_string is out of CBMC's reach)
+// Hex string literal decoding (C07 clause: decoded byte-wise as Latin-1 when, and only when, the body
+// consists of hex digit pairs, commas allowed; C16: either letter case of the digits).
+// The `encoding` crate's decoder runs through `Box<dyn RawDecoder>` (CBMC would have to consider the
+// decoders of every encoding in the crate): `Encoding::decode` for the single-byte encoding is
+// replaced by the identity byte -> U+00XX map, which is what ISO-8859-1 is.
+
+use std::borrow::Cow;
+
+pub(crate) trait Latin1Stub: Encoding {
+    fn latin1_decode(&self, input: &[u8], _trap: DecoderTrap) -> Result<String, Cow<'static, str>> {
+        let mut s = String::with_capacity(8);
+        let mut i = 0;
+        while i < input.len() {
+            s.push(input[i] as char);
+            i += 1;
+        }
+        Ok(s)
+    }
+}
+impl<T: Encoding + ?Sized> Latin1Stub for T {}
+
+macro_rules! hex_harness {
+    ($name:ident, $n:literal, $uw:literal) => {
+        #[kani::proof]
+        #[kani::unwind($uw)]
+        #[kani::stub(encoding::Encoding::decode, Latin1Stub::latin1_decode)]
+        fn $name() {
+            // quote + N body bytes (any ASCII except the quote) + quote + x
+            let mut buf = [0u8; $n + 3];
+            let dq: bool = kani::any();
+            let q = if dq { b'"' } else { b'\'' };
+            buf[0] = q;
+            let mut i = 0;
+            while i < $n {
+                let b: u8 = kani::any();
+                kani::assume(b < 0x80 && b != q);
+                buf[1 + i] = b;
+                i += 1;
+            }
+            buf[$n + 1] = q;
+            buf[$n + 2] = if kani::any() { b'x' } else { b'X' };
+            let text = unsafe { std::str::from_utf8_unchecked(&buf) };
+            let r = parse_sas_hex_string(text);
+            // reference: drop commas; the rest must be pairs of hex digits
+            let mut digits = [0u8; $n];
+            let mut nd = 0usize;
+            let mut all_hex = true;
+            let mut i = 0;
+            while i < $n {
+                let b = buf[1 + i];
+                if b != b',' {
+                    if b.is_ascii_hexdigit() {
+                        digits[nd] = if b.is_ascii_digit() { b - b'0' } else { (b | 0x20) - b'a' + 10 };
+                        nd += 1;
+                    } else {
+                        all_hex = false;
+                    }
+                }
+                i += 1;
+            }
+            let valid = all_hex && nd % 2 == 0;
+            match &r {
+                Ok(s) => {
+                    assert!(valid, "C07: a hex literal whose body is not hex digit pairs must not be decoded");
+                    // byte-wise Latin-1: char j = U+00(d[2j] d[2j+1])
+                    let mut it = s.chars();
+                    let mut j = 0;
+                    while j < $n / 2 {
+                        if 2 * j < nd {
+                            let c = it.next();
+                            assert!(c == Some((digits[2 * j] * 16 + digits[2 * j + 1]) as char), "C07/C16: decoded value of a hex digit pair (either letter case)");
+                        }
+                        j += 1;
+                    }
+                    assert!(it.next().is_none(), "C07: decoded hex literal has one character per digit pair");
+                }
+                Err(e) => {
+                    assert!(!valid, "C07/C16: a hex literal made of hex digit pairs (any letter case, commas allowed) must decode");
+                    assert!(*e == ErrorKind::InvalidHexStringConstant, "C07: invalid hex literal error kind");
+                }
+            }
+            kani::cover!(r.is_ok() && nd == 2 && $n >= 3, "pair with a comma");
+            kani::cover!(r.is_err() && all_hex, "odd number of digits");
+            kani::cover!(r.is_ok() && nd == $n && buf[1] >= b'a', "lower-case digits");
+            std::mem::forget(r);
+        }
+    };
+}
+hex_harness!(hex_decode_n2, 2, 8);
+hex_harness!(hex_decode_n3, 3, 9);
+hex_harness!(hex_decode_n4, 4, 10);
